@@ -316,6 +316,8 @@ func checkC13(p *Prog, r *Report) {
 	c13DefBeforeUse(p, r)
 	c13HeaderNames(p, r)
 	yamlKeysRule(p, r, "C13.yaml-keys", []string{"CropParam", "CropDevelopmentStage"})
+	inputHelpers(p, r, "C13.input-helpers")
+	yearExtensionRule(p, r, "C13.year-files")
 }
 
 func short(k string) string { return strings.TrimPrefix(k, "hermes.") }
